@@ -8,6 +8,10 @@
 //!   `TextPreprocessorImpl::add_text` (real lig/kern program of cmr10.tfm), then broken by the real
 //!   `break_line` with or without the real plain-TeX hyphenator.
 //!
+//! * `P <ints> | <previous paragraph> | <text>` — as `T`, after the same preprocessor has typeset an earlier paragraph.
+//! * `B <ints> | [<previous paragraph> |] <text>` — the text through the command line `box linebreak` (crates/boxworks-bin/src/box.rs)
+//!   of the tree under test, built on first use into `/verif/.work/C12/boxbin-<hash>`; `D` — `plain_tex_defaults()` vs plain.tex.
+//!
 //! For every case the break positions are obtained from `break_line_all_attempts` on a copy of the
 //! list; the list as `break_line` left it (paragraph end appended, possibly hyphenated), the break
 //! positions and the decoded `Vec<ds::Vertical>` go to the Lean driver, which (M) runs the
@@ -296,6 +300,7 @@ fn build_vinit(k: i64) -> Vec<ds::Vertical> {
         0 => vec![],
         1 => vec![hb(196608)],
         2 => vec![ds::Vertical::Penalty(ds::Penalty(5))],
+        4 => vec![hb(65536), ds::Vertical::VBox(ds::VBox { depth: Scaled(98304), height: Scaled(400000), ..Default::default() }), ds::Vertical::Penalty(ds::Penalty(0))],
         _ => vec![
             hb(131072),
             ds::Vertical::Glue(ds::Glue { kind: ds::GlueKind::Normal, value: Glue::ZERO }),
@@ -309,6 +314,7 @@ fn vinit_depth(k: i64) -> (i64, i64) {
         0 => (0, 0),
         1 => (1, 196608),
         2 => (1, 0),
+        4 => (1, 98304),
         _ => (1, 131072),
     }
 }
@@ -397,6 +403,43 @@ struct RealBreak {
     shape_error: Option<String>,
 }
 
+/// `[glue] hbox [penalty]` … → lines; anything else is a shape error.
+fn decode_vlist(v: &[ds::Vertical]) -> (Vec<RLine>, Option<String>) {
+    let mut shape_error = None;
+    let mut lines: Vec<RLine> = vec![];
+    let mut pending_glue: Option<i64> = None;
+    for e in v {
+        match e {
+            ds::Vertical::Glue(g) => {
+                if pending_glue.is_some() || !g.value.stretch.is_zero() || !g.value.shrink.is_zero() {
+                    shape_error = Some("unexpected glue between lines".into());
+                }
+                pending_glue = Some(g.value.width.0 as i64);
+            }
+            ds::Vertical::HBox(b) => {
+                lines.push(RLine {
+                    list: b.list.clone(),
+                    width: b.width.0 as i64,
+                    shift: b.shift_amount.0 as i64,
+                    height: b.height.0 as i64,
+                    depth: b.depth.0 as i64,
+                    pen: None,
+                    glue_before: pending_glue.take(),
+                });
+            }
+            ds::Vertical::Penalty(p) => match lines.last_mut() {
+                Some(l) if l.pen.is_none() && pending_glue.is_none() => l.pen = Some(p.0 as i64),
+                _ => shape_error = Some("unexpected penalty in the vertical list".into()),
+            },
+            _ => shape_error = Some("unexpected node in the vertical list".into()),
+        }
+    }
+    if pending_glue.is_some() {
+        shape_error = Some("trailing glue in the vertical list".into());
+    }
+    (lines, shape_error)
+}
+
 /// `Err((stage, panic))`: stage "attempts" = the search for breakpoints panicked.
 fn run_break<F: boxworks::FontRepo>(
     repo: &F,
@@ -436,36 +479,9 @@ fn run_break<F: boxworks::FontRepo>(
             if v.len() < vinit.len() || v[..vinit.len()] != vinit[..] {
                 shape_error = Some("break_line changed the vertical material before the paragraph".to_string());
             }
-            let mut lines: Vec<RLine> = vec![];
-            let mut pending_glue: Option<i64> = None;
-            for e in v.iter().skip(vinit.len()) {
-                match e {
-                    ds::Vertical::Glue(g) => {
-                        if pending_glue.is_some() || !g.value.stretch.is_zero() || !g.value.shrink.is_zero() {
-                            shape_error = Some("unexpected glue between lines".into());
-                        }
-                        pending_glue = Some(g.value.width.0 as i64);
-                    }
-                    ds::Vertical::HBox(b) => {
-                        lines.push(RLine {
-                            list: b.list.clone(),
-                            width: b.width.0 as i64,
-                            shift: b.shift_amount.0 as i64,
-                            height: b.height.0 as i64,
-                            depth: b.depth.0 as i64,
-                            pen: None,
-                            glue_before: pending_glue.take(),
-                        });
-                    }
-                    ds::Vertical::Penalty(p) => match lines.last_mut() {
-                        Some(l) if l.pen.is_none() && pending_glue.is_none() => l.pen = Some(p.0 as i64),
-                        _ => shape_error = Some("unexpected penalty in the vertical list".into()),
-                    },
-                    _ => shape_error = Some("unexpected node in the vertical list".into()),
-                }
-            }
-            if pending_glue.is_some() {
-                shape_error = Some("trailing glue in the vertical list".into());
+            let (lines, e) = decode_vlist(&v[vinit.len().min(v.len())..]);
+            if e.is_some() {
+                shape_error = e;
             }
             Ok(lines)
         }
@@ -532,17 +548,26 @@ fn check_break(out: &mut CaseOutcome, drv: &mut Driver, c: &Common, orig: &[ds::
     if let Some(e) = &rb.shape_error {
         out.fail(Kind::ImplVsModel, "vlist", format!("vlist shape: {e}"), e.clone());
     }
-    // --- TeX.2021.816 ---
+    // --- TeX.2021.816 (the specification determines the result: `finish_par_shape`) ---
     if !hyph_on && rb.lines.is_ok() {
         let mut req = String::from("fin ");
         req.push_str(&join(&c.parfill));
         req.push(' ');
         req.push_str(&join(&enc_real_list(orig, &mut it)));
         let want = drv.ask(&req);
-        if want != join(&l_enc) {
-            out.fail(Kind::ImplVsModel, "finish", "paragraph end (816) differs from the model", format!("model: {want}\nreal:  {}", join(&l_enc)));
-        }
         out.tag(if matches!(orig.last(), Some(ds::Horizontal::Glue(_))) { "816:glue-removed" } else { "816:no-trailing-glue" });
+        if matches!(orig, [.., ds::Horizontal::Glue(_), ds::Horizontal::Glue(_)]) {
+            out.tag("816:two-trailing-glues");
+        }
+        if want != join(&l_enc) {
+            out.fail(
+                Kind::ImplVsSpec,
+                "finish",
+                "paragraph end differs from TeX 816 (one trailing glue removed, \\penalty10000, \\parfillskip)",
+                format!("TeX: {want}\nreal: {}", join(&l_enc)),
+            );
+            return;
+        }
     }
     let mut base = join(&c.lean_params());
     base.push(' ');
@@ -759,7 +784,7 @@ fn gen_common(rng: &mut Rng, u: i64, base: i64) -> Common {
         }
     };
     Common {
-        vinit: *rng.pick(&[0, 0, 1, 2, 3]),
+        vinit: *rng.pick(&[0, 0, 0, 1, 2, 3, 4]),
         tol: *rng.pick(&[-1, 0, 100, 200, 200, 200, 1000, 10000, 10000, 20000]),
         pretol: *rng.pick(&[-1, 100, 100, 200, 10000]),
         emerg: if rng.chance(1, 6) { u * *rng.pick(&[1, 5, 20]) } else { 0 },
@@ -833,9 +858,11 @@ fn gen_list(rng: &mut Rng, u: i64, max_items: usize, exotic: bool) -> Vec<It> {
                 };
                 let r = *rng.pick(&[0, 0, 0, 1, 1, 2]);
                 items.push(It::Disc(pre, post, r));
-                // sometimes a discretionary directly followed by discardable material
+                // sometimes a discretionary directly followed by discardable material or by a kern
                 if rng.chance(1, 8) {
                     items.push(It::Pen(*rng.pick(&[0, 100, 10000])));
+                } else if rng.chance(1, 8) {
+                    items.push(It::Kern(*rng.pick(&[0, 1, 2, 3]), u));
                 }
             } else if bi + 1 < n_boxes && rng.chance(1, 6) {
                 items.push(It::Kern(*rng.pick(&[0, 0, 2, 3]), u * *rng.pick(&[-1, 1])));
@@ -892,6 +919,11 @@ fn gen_list(rng: &mut Rng, u: i64, max_items: usize, exotic: bool) -> Vec<It> {
                     items.push(It::Pen(0));
                     items.push(sp(rng));
                 }
+            }
+            8 => {
+                // a font/accent/math kern right after the glue: not discardable, must start the next line
+                items.push(sp(rng));
+                items.push(It::Kern(*rng.pick(&[0, 2, 3]), u * *rng.pick(&[1, -1, 2])));
             }
             7 => items.push(It::Glue(*rng.pick(&[0, 0, 2, 3]), [u * 4, u * *rng.pick(&[0, 1, 10]), *rng.pick(&[0, 0, 1, 2, 3]), u * *rng.pick(&[0, 2]), *rng.pick(&[0, 0, 1])])),
             _ => items.push(sp(rng)),
@@ -1002,27 +1034,55 @@ impl Cmr {
 
 struct C12 {
     cmr: Option<Cmr>,
+    box_bin: Option<Result<String, String>>,
+}
+
+fn repo_path() -> String {
+    std::env::var("VERIF_REPO").unwrap_or_else(|_| {
+        let mut r = "/repo".to_string();
+        let mut it = std::env::args();
+        while let Some(a) = it.next() {
+            if a == "--repo" {
+                if let Some(v) = it.next() {
+                    r = v;
+                }
+            }
+        }
+        r
+    })
 }
 
 impl C12 {
     fn cmr(&mut self) -> &Cmr {
         if self.cmr.is_none() {
-            let repo = std::env::var("VERIF_REPO").unwrap_or_else(|_| {
-                let mut r = "/repo".to_string();
-                let mut it = std::env::args();
-                while let Some(a) = it.next() {
-                    if a == "--repo" {
-                        if let Some(v) = it.next() {
-                            r = v;
-                        }
-                    }
-                }
-                r
-            });
+            let repo = repo_path();
             let bytes = std::fs::read(format!("{repo}/{CMR10}")).or_else(|_| std::fs::read(format!("/repo/{CMR10}"))).expect("cmr10.tfm");
             self.cmr = Some(Cmr { bytes });
         }
         self.cmr.as_ref().unwrap()
+    }
+
+    /// The `box` binary of the repository under test (crates/boxworks-bin), built on first use
+    /// into a target directory of our own (never into the repository).
+    fn box_bin(&mut self) -> Result<String, String> {
+        if self.box_bin.is_none() {
+            let repo = repo_path();
+            let verif = std::env::var("VERIF_DIR").unwrap_or_else(|_| "/verif".into());
+            let target = format!("{verif}/.work/C12/boxbin-{:016x}", fxhash(&repo));
+            let r = std::process::Command::new("cargo")
+                .args(["build", "--offline", "-q", "-p", "boxworks-bin", "--bin", "box", "--manifest-path"])
+                .arg(format!("{repo}/Cargo.toml"))
+                .env("CARGO_TARGET_DIR", &target)
+                .env("CARGO_NET_OFFLINE", "true")
+                .env_remove("RUSTFLAGS")
+                .output();
+            self.box_bin = Some(match r {
+                Ok(o) if o.status.success() => Ok(format!("{target}/debug/box")),
+                Ok(o) => Err(format!("cargo build -p boxworks-bin failed: {}", String::from_utf8_lossy(&o.stderr).chars().rev().take(600).collect::<String>().chars().rev().collect::<String>())),
+                Err(e) => Err(format!("cannot run cargo: {e}")),
+            });
+        }
+        self.box_bin.clone().unwrap()
     }
 
     fn run_l(&mut self, case: &str, drv: &mut Driver) -> CaseOutcome {
@@ -1043,7 +1103,285 @@ impl C12 {
         out
     }
 
-    fn run_t(&mut self, case: &str, drv: &mut Driver) -> CaseOutcome {
+    /// `D`: the `plain_tex_defaults()` of the three parameter sets against plain.tex (Lean constants).
+    fn run_d(&mut self, drv: &mut Driver) -> CaseOutcome {
+        let mut out = CaseOutcome::default();
+        let want = drv.ask("dfl");
+        let k = kp::Params::plain_tex_defaults();
+        let t = bwt::Params::plain_tex_defaults();
+        let mut real: Vec<i64> = vec![];
+        let codes = plain_codes();
+        real.push(codes.len() as i64);
+        for (c, v) in &codes {
+            real.extend([*c, *v]);
+        }
+        real.extend([k.inter_line_penalty as i64, k.club_penalty as i64, k.final_widow_penalty as i64, k.broken_penalty as i64]);
+        for g in [&k.left_skip, &k.right_skip, &k.par_fill_skip, &t.space_skip, &t.extra_space_skip] {
+            enc_glue_val(g, &mut real);
+        }
+        if want != join(&real) {
+            out.fail(Kind::ImplVsSpec, "defaults", "plain_tex_defaults() differ from plain.tex", format!("plain.tex: {want}\nreal:      {}", join(&real)));
+        }
+        out.tag("defaults:checked");
+        out.nontrivial = true;
+        out
+    }
+
+    /// `B <ints as in T> | <text>`: the paragraph through the command line `box linebreak`
+    /// (crates/boxworks-bin/src/box.rs: option handling, glue parsing, width lists), compared with
+    /// the library call with the intended parameters, and judged by the same Lean verdict.
+    fn run_b(&mut self, case: &str, prev: Option<&str>, drv: &mut Driver) -> CaseOutcome {
+        let mut out = CaseOutcome::default();
+        let tc = TCase::decode(case);
+        let bin = match self.box_bin() {
+            Ok(b) => b,
+            Err(e) => {
+                out.fail(Kind::ImplVsModel, "cli", "cli: cannot build the box binary", e);
+                return out;
+            }
+        };
+        // --- the library call with the intended parameters ---
+        let cmr_file = self.cmr().file();
+        let mut f1 = self.cmr().file();
+        let prog = tfm::ligkern::CompiledProgram::compile_from_tfm_file(&mut f1).0;
+        let mut tp = bwt::TextPreprocessorImpl::new(bwt::Params {
+            space_factor_codes: bwt::SpaceFactorCodes::plain_tex_defaults(),
+            space_skip: glue(tc.space_skip),
+            extra_space_skip: glue(tc.xspace_skip),
+        });
+        tp.register_font(0, &cmr_file, prog);
+        tp.activate_font(0);
+        let text = tc.text.clone();
+        if let Some(prev) = prev {
+            let prev = prev.to_string();
+            let mut scratch: Vec<ds::Horizontal> = vec![];
+            if caught(|| tp.add_text(&prev, &mut scratch)).is_err() {
+                out.tag("cli:skip-library-panics");
+                return out;
+            }
+        }
+        let mut list: Vec<ds::Horizontal> = vec![];
+        if caught(|| tp.add_text(&text, &mut list)).is_err() {
+            out.tag("cli:skip-library-panics");
+            return out;
+        }
+        let mut f2 = self.cmr().file();
+        let prog2 = tfm::ligkern::CompiledProgram::compile_from_tfm_file(&mut f2).0;
+        let mut repo = bwt::TfmFontRepo::default();
+        repo.register_font(0, self.cmr().file());
+        let real_h = boxworks_hyphenate::Hyphenator::plain_tex_en_us(prog2);
+        let rb = match run_break(&repo, &real_h, &tc.c, &list) {
+            Ok(rb) if rb.lines.is_ok() => rb,
+            _ => {
+                out.tag("cli:skip-library-panics");
+                return out;
+            }
+        };
+        let lib_lines = rb.lines.as_ref().unwrap();
+        // --- the command line ---
+        let c = &tc.c;
+        let d = kp::Params::plain_tex_defaults();
+        let sc = |x: i64| format!("{}", Scaled(x as i32));
+        let inf = |x: i64, o: i64| -> String {
+            let s = sc(x);
+            match o {
+                0 => s,
+                1 => format!("{}fil", s.trim_end_matches("pt")),
+                2 => format!("{}fill", s.trim_end_matches("pt")),
+                _ => format!("{}filll", s.trim_end_matches("pt")),
+            }
+        };
+        let gs = |g: [i64; 5]| -> String {
+            let mut s = sc(g[0]);
+            if g[1] != 0 || g[2] != 0 {
+                s.push_str(&format!(" plus {}", inf(g[1], g[2])));
+            }
+            if g[3] != 0 || g[4] != 0 {
+                s.push_str(&format!(" minus {}", inf(g[3], g[4])));
+            }
+            s
+        };
+        let mut args: Vec<String> = vec!["linebreak".into()];
+        if c.widths.len() == 1 && c.il % 2 == 0 {
+            args.push(format!("--width={}", sc(c.widths[0])));
+        } else {
+            args.push(format!("--widths={}", c.widths.iter().map(|w| sc(*w)).collect::<Vec<_>>().join(", ")));
+        }
+        let mut opt = |name: &str, val: String, is_default: bool| {
+            if !is_default {
+                args.push(format!("--{name}={val}"));
+            }
+        };
+        opt("left-skip", gs(c.left), glue(c.left) == d.left_skip);
+        opt("right-skip", gs(c.right), glue(c.right) == d.right_skip);
+        opt("par-fill-skip", gs(c.parfill), glue(c.parfill) == d.par_fill_skip);
+        opt("space-skip", gs(tc.space_skip), tc.space_skip == [0; 5]);
+        opt("extra-space-skip", gs(tc.xspace_skip), tc.xspace_skip == [0; 5]);
+        opt("inter-line-penalty", c.il.to_string(), c.il == d.inter_line_penalty as i64);
+        opt("club-penalty", c.cl.to_string(), c.cl == d.club_penalty as i64);
+        opt("final-widow-penalty", c.wd.to_string(), c.wd == d.final_widow_penalty as i64);
+        opt("broken-penalty", c.br.to_string(), c.br == d.broken_penalty as i64);
+        opt("tolerance", c.tol.to_string(), c.tol == d.tolerance as i64);
+        opt("pre-tolerance", c.pretol.to_string(), c.pretol == d.pre_tolerance as i64);
+        opt("emergency-stretch", sc(c.emerg), c.emerg == 0);
+        opt("looseness", c.loose.to_string(), c.loose == 0);
+        opt("hyphen-penalty", c.hyphpen.to_string(), c.hyphpen == d.hyphen_penalty as i64);
+        opt("ex-hyphen-penalty", c.exhyphpen.to_string(), c.exhyphpen == d.ex_hyphen_penalty as i64);
+        opt("line-penalty", c.linepen.to_string(), c.linepen == d.line_penalty as i64);
+        let text_mode = c.vinit == 1;
+        if text_mode {
+            args.push("--output-text".into());
+        }
+        let mut texts_file = None;
+        if let Some(prev) = prev {
+            // two paragraphs, one per line of a texts file: the second one is compared
+            let verif = std::env::var("VERIF_DIR").unwrap_or_else(|_| "/verif".into());
+            let path = format!("{verif}/.work/C12/texts-{}.txt", std::process::id());
+            std::fs::write(&path, format!("{prev}\n\n{text}\n")).expect("write texts file");
+            args.push(format!("--texts-file={path}"));
+            texts_file = Some(path);
+            out.tag("cli:texts-file, second paragraph");
+        } else {
+            args.push("--".into());
+            args.push(text.clone());
+        }
+        let n_par = if prev.is_some() { 2 } else { 1 };
+        let o = std::process::Command::new(&bin).args(&args).env_remove("RUST_BACKTRACE").output();
+        if let Some(p) = &texts_file {
+            let _ = std::fs::remove_file(p);
+        }
+        let stdout = match o {
+            Ok(o) if o.status.success() => String::from_utf8_lossy(&o.stdout).to_string(),
+            Ok(o) => {
+                let err = format!("{}{}", String::from_utf8_lossy(&o.stdout), String::from_utf8_lossy(&o.stderr));
+                out.fail(Kind::ImplPanic, "cli", "cli: box linebreak fails where the library call succeeds", format!("args {args:?}: {}", err.chars().take(400).collect::<String>()));
+                return out;
+            }
+            Err(e) => {
+                out.fail(Kind::ImplVsModel, "cli", "cli: cannot run the box binary", e.to_string());
+                return out;
+            }
+        };
+        if text_mode {
+            // `--output-text`: one line of text per line box. Reading the lines in order, without
+            // the hyphens inserted at the line ends, must spell the text (Lean `spell`).
+            out.tag("cli:output-text");
+            let all_lines: Vec<&str> = stdout.lines().collect();
+            // the lines of the last paragraph
+            let out_lines: Vec<&str> = if n_par == 2 && all_lines.len() > lib_lines.len() { all_lines[all_lines.len() - lib_lines.len()..].to_vec() } else { all_lines.clone() };
+            if out_lines.len() != lib_lines.len() || (n_par == 2 && all_lines.len() <= lib_lines.len()) {
+                out.fail(Kind::ImplVsSpec, "cli", "cli: --output-text prints a different number of lines", format!("args {args:?}: {} lines, library {}", out_lines.len(), lib_lines.len()));
+                return out;
+            }
+            let mut req = String::new();
+            for (k, l) in out_lines.iter().enumerate() {
+                let mut cs: String = l.chars().filter(|ch| *ch != ' ').collect();
+                // a line broken at a hyphen inserted by the hyphenator ends with that hyphen
+                if let Some(ds::Horizontal::Discretionary(d)) = rb.bps.get(k).and_then(|b| rb.list_after.get(*b)) {
+                    if matches!(d.pre_break.last(), Some(ds::DiscretionaryElem::Char(ch)) if ch.char == '-') && cs.ends_with('-') {
+                        cs.pop();
+                    }
+                }
+                req.push_str(&format!(" 1 {}", cs.chars().count()));
+                for ch in cs.chars() {
+                    req.push_str(&format!(" {}", ch as u32));
+                }
+            }
+            let all: String = text.split_ascii_whitespace().collect();
+            let mut wreq = format!(" 1 {}", all.chars().count());
+            for ch in all.chars() {
+                wreq.push_str(&format!(" {}", ch as u32));
+            }
+            if drv.ask(&format!("spl {}{req}{wreq}", out_lines.len())) != "1" {
+                out.fail(Kind::ImplVsSpec, "cli", "cli: the lines printed by --output-text do not spell the text", format!("args {args:?}\noutput: {stdout:?}"));
+            }
+            // spaces: every glue item of the line is one space
+            for (k, l) in out_lines.iter().enumerate() {
+                let want = lib_lines[k].list.iter().filter(|h| matches!(h, ds::Horizontal::Glue(_))).count();
+                if l.chars().filter(|ch| *ch == ' ').count() != want {
+                    out.fail(Kind::ImplVsModel, "cli", "cli: --output-text spaces differ from the glue items of the line", format!("line {k}: {l:?}, {want} glue items"));
+                    break;
+                }
+            }
+            out.nontrivial = rb.bps.len() >= 2;
+            return out;
+        }
+        let parsed = match boxworks::lang::parse_horizontal_list(&stdout) {
+            Ok(p) => p,
+            Err(_) => {
+                out.fail(Kind::ImplVsModel, "cli", "cli: output is not box language", stdout.chars().take(300).collect::<String>());
+                return out;
+            }
+        };
+        let vlist: Vec<ds::Vertical> = match parsed.as_slice() {
+            [ds::Horizontal::VBox(vb)] if n_par == 1 => vb.list.clone(),
+            [ds::Horizontal::VBox(_), ds::Horizontal::VBox(vb)] if n_par == 2 => vb.list.clone(),
+            _ => {
+                out.fail(Kind::ImplVsSpec, "cli", "cli: box linebreak does not print one vbox per paragraph", format!("args {args:?}: {} items for {n_par} paragraphs", parsed.len()));
+                return out;
+            }
+        };
+        let (cli_lines, shape) = decode_vlist(&vlist);
+        if let Some(e) = shape {
+            out.fail(Kind::ImplVsModel, "cli", format!("cli: vlist shape: {e}"), e);
+        }
+        let mut it = Intern::default();
+        let l_enc = enc_real_list(&rb.list_after, &mut it);
+        let mut base = join(&c.lean_params());
+        base.push(' ');
+        base.push_str(&join(&l_enc));
+        base.push(' ');
+        base.push_str(&rb.bps.len().to_string());
+        for b in &rb.bps {
+            base.push(' ');
+            base.push_str(&b.to_string());
+        }
+        let enc_lines = |lines: &[RLine], it: &mut Intern| -> String {
+            let mut real = vec![lines.len() as i64];
+            for ln in lines {
+                real.extend(enc_real_list(&ln.list, it));
+                real.extend([ln.width, ln.shift, ln.pen.is_some() as i64, ln.pen.unwrap_or(0)]);
+            }
+            join(&real)
+        };
+        let cli_s = enc_lines(&cli_lines, &mut it);
+        let lib_s = enc_lines(lib_lines, &mut it);
+        let verdict = drv.ask(&format!("spec {base} {cli_s}"));
+        let mut flagged = false;
+        if verdict != "ok valid" {
+            flagged = true;
+            let clauses = verdict.split(' ').next().unwrap_or("");
+            out.fail(
+                Kind::ImplVsSpec,
+                "cli",
+                format!("cli: box linebreak with the requested settings violates: {clauses}"),
+                format!("args {args:?}; breaks of the library call {:?}; verdict {verdict}", rb.bps),
+            );
+        }
+        let glues = |lines: &[RLine]| lines.iter().map(|l| l.glue_before).collect::<Vec<_>>();
+        if !flagged && (cli_s != lib_s || glues(&cli_lines) != glues(lib_lines)) {
+            out.fail(Kind::ImplVsModel, "cli", "cli: box linebreak differs from the library call with the same settings", format!("args {args:?}\ncli: {cli_s}\nlib: {lib_s}"));
+        }
+        out.tag("cli:run");
+        out.tag(if c.widths.len() > 1 { "cli:several-widths" } else { "cli:one-width" });
+        for (name, on) in [
+            ("left-skip", glue(c.left) != d.left_skip),
+            ("right-skip", glue(c.right) != d.right_skip),
+            ("par-fill-skip", glue(c.parfill) != d.par_fill_skip),
+            ("space-skip", tc.space_skip != [0; 5]),
+            ("extra-space-skip", tc.xspace_skip != [0; 5]),
+            ("glue with minus", c.left[3] != 0 || c.right[3] != 0 || tc.space_skip[3] != 0 || tc.xspace_skip[3] != 0),
+            ("glue with fil/fill/filll", [c.left, c.right, c.parfill].iter().any(|g| g[2] != 0 || g[4] != 0)),
+        ] {
+            if on {
+                out.tag(format!("cli:{name}"));
+            }
+        }
+        out.nontrivial = rb.bps.len() >= 2;
+        out
+    }
+
+    fn run_t(&mut self, case: &str, prev: Option<&str>, drv: &mut Driver) -> CaseOutcome {
         let mut out = CaseOutcome::default();
         let tc = TCase::decode(case);
         let cmr_file = self.cmr().file();
@@ -1057,6 +1395,14 @@ impl C12 {
         tp.register_font(0, &cmr_file, prog);
         tp.activate_font(0);
         let text = tc.text.clone();
+        if let Some(prev) = prev {
+            // an earlier paragraph through the same preprocessor: its state must not leak
+            let prev = prev.to_string();
+            let mut scratch: Vec<ds::Horizontal> = vec![];
+            if caught(|| tp.add_text(&prev, &mut scratch)).is_ok() {
+                out.tag("text:second-paragraph");
+            }
+        }
         let mut list: Vec<ds::Horizontal> = vec![];
         let r = caught(|| tp.add_text(&text, &mut list));
         // --- the model's and the specification's inter-word glue ---
@@ -1145,6 +1491,7 @@ impl C12 {
         let mut req = String::new();
         let mut n_items = 0;
         let mut hyphen_rule_ok = true;
+        let mut font_kerns_normal = true;
         for (i, h) in list.iter().enumerate() {
             let chars: Option<String> = match h {
                 ds::Horizontal::Char(c) => Some(c.char.to_string()),
@@ -1155,6 +1502,12 @@ impl C12 {
                 ds::Horizontal::Glue(_) => {
                     req.push_str(" 0");
                     n_items += 1;
+                }
+                ds::Horizontal::Kern(k) => {
+                    // TeX.2021.1040: `new_kern`, subtype normal — font kerns are neither breakpoints nor discardable
+                    if k.kind != ds::KernKind::Normal {
+                        font_kerns_normal = false;
+                    }
                 }
                 ds::Horizontal::Discretionary(d) => {
                     // TeX.2021.1039: only after a hyphen character, and empty
@@ -1191,6 +1544,9 @@ impl C12 {
         let spelled = drv.ask(&format!("spl {n_items}{req}{wreq}"));
         if spelled != "1" {
             out.fail(Kind::ImplVsSpec, "spell", "the list does not spell the words", format!("text {:?}: driver says {spelled}", text));
+        }
+        if !font_kerns_normal {
+            out.fail(Kind::ImplVsSpec, "spell", "a kern from the font's lig/kern program is not a normal kern (TeX 1040)", format!("text {:?}", text));
         }
         if !hyphen_rule_ok {
             out.fail(Kind::ImplVsSpec, "spell", "explicit hyphen: discretionary missing or misplaced (TeX 1039)", format!("text {:?}", text));
@@ -1278,6 +1634,9 @@ impl Property for C12 {
          list; a share with mark/adjust/insertion/math nodes (outside the quantifier: HBox::pack answers todo!(); only the model's panic prediction is compared); \
          (d) random texts over cmr10 (words with ligatures, kerns, punctuation of every space-factor class, explicit hyphens and dashes) through the real \
          TextPreprocessorImpl::add_text with random \\spaceskip/\\xspaceskip/space-factor codes, then the real break_line with and without the real plain-TeX hyphenator. \
+         a quarter of them (`P`) after an earlier paragraph through the same preprocessor; (e) `B`: the same kind of text through the real command line \
+         `box linebreak` of the tree under test (all skip/penalty/width options, glue strings with plus/minus and fil orders, text as argument or two paragraphs via \
+         --texts-file, box output or --output-text), judged by the same Lean verdict with the intended settings; (f) `D`: plain_tex_defaults() against plain.tex. \
          Non-trivial = inside the quantifier and at least two lines; distinct = distinct case string."
             .into()
     }
@@ -1320,6 +1679,7 @@ impl Property for C12 {
             text: "a, b. c".into(),
         };
         v.push(t.encode());
+        v.push("D".into());
         v
     }
     fn generate(&mut self, ctx: &Ctx, rng: &mut Rng) -> Vec<String> {
@@ -1382,7 +1742,7 @@ impl Property for C12 {
             let sk = |r: &mut Rng| -> [i64; 5] {
                 match r.below(6) {
                     0 | 1 | 2 => [0; 5],
-                    3 => [218430, 0, 0, 0, 0],
+                    3 => *r.pick(&[[218430, 0, 0, 0, 0], [0, 131072, 0, 0, 0], [0, 0, 0, 65536, 0], [0, 65536, 1, 0, 0]]),
                     4 => [196608, 65536, 0, 65536, 0],
                     _ => [r.range(0, 400000), r.range(0, 200000), *r.pick(&[0, 0, 1]), r.range(0, 100000), 0],
                 }
@@ -1400,7 +1760,58 @@ impl Property for C12 {
                 codes.sort();
             }
             let t = TCase { hyph: r.chance(1, 2), c, space_skip: sk(&mut r), xspace_skip: sk(&mut r), codes, text: gen_text(&mut r) };
-            v.push(t.encode());
+            if r.chance(1, 4) {
+                // the same preprocessor has already typeset a paragraph (ending in any space-factor class)
+                let prev = format!("{} {}", gen_text(&mut r).trim(), *r.pick(&["end.", "why?", "thus:", "here;", "well,", "NASA", "B)", "so"]));
+                let e = t.encode();
+                let (ints, text) = e[2..].split_once(" | ").unwrap_or((&e[2..], ""));
+                v.push(format!("P {ints} | {prev} | {text}"));
+            } else {
+                v.push(t.encode());
+            }
+        }
+        // (e) the command line: box linebreak
+        let n = if ctx.thorough { 1_500 } else { 160 };
+        let mut r = rng.fork();
+        for _ in 0..n {
+            let u = 65536;
+            let base = u * *r.pick(&[60, 80, 100, 120, 150, 200, 345]);
+            let mut c = gen_common(&mut r, u, base);
+            c.vinit = r.chance(1, 4) as i64; // 1 = `--output-text`
+            c.indents.clear();
+            if r.chance(1, 2) {
+                c.tol = *r.pick(&[200, 1000, 10000]);
+                c.pretol = *r.pick(&[100, -1]);
+            }
+            let gl = |r: &mut Rng| -> [i64; 5] {
+                match r.below(5) {
+                    0 | 1 => [0; 5],
+                    2 => [r.range(-100000, 400000), 0, 0, 0, 0],
+                    3 => [r.range(0, 300000), r.range(0, 200000), *r.pick(&[0, 0, 1, 2, 3]), r.range(0, 100000), *r.pick(&[0, 0, 0, 1])],
+                    _ => [0, r.range(1, 200000), *r.pick(&[0, 1, 2, 3]), r.range(0, 50000), 0],
+                }
+            };
+            c.left = gl(&mut r);
+            c.right = gl(&mut r);
+            if r.chance(1, 3) {
+                c.parfill = [r.range(0, 200000), r.range(0, 655360), *r.pick(&[0, 1, 2, 3]), 0, 0];
+            }
+            let sk = |r: &mut Rng| -> [i64; 5] {
+                match r.below(4) {
+                    0 | 1 => [0; 5],
+                    2 => [r.range(0, 400000), r.range(0, 200000), 0, r.range(0, 100000), 0],
+                    _ => *r.pick(&[[0, 131072, 0, 0, 0], [218430, 0, 0, 0, 0], [0, 0, 0, 65536, 0]]),
+                }
+            };
+            let t = TCase { hyph: true, c, space_skip: sk(&mut r), xspace_skip: sk(&mut r), codes: plain_codes(), text: gen_text(&mut r).replace('\t', " ") };
+            let e = t.encode();
+            if r.chance(1, 3) && !t.text.trim().is_empty() {
+                let prev = format!("{} {}", gen_text(&mut r).replace('\t', " ").trim(), *r.pick(&["end.", "why?", "thus:", "here;", "NASA", "so"]));
+                let (ints, text) = e[2..].split_once(" | ").unwrap_or((&e[2..], ""));
+                v.push(format!("B {ints} | {prev} | {text}"));
+            } else {
+                v.push(format!("B{}", &e[1..]));
+            }
         }
         v
     }
@@ -1409,9 +1820,23 @@ impl Property for C12 {
         if let Some(rest) = case.strip_prefix("L ") {
             self.run_l(rest, drv)
         } else if let Some(rest) = case.strip_prefix("T ") {
-            self.run_t(rest, drv)
+            self.run_t(rest, None, drv)
+        } else if let Some(rest) = case.strip_prefix("P ") {
+            // `P <ints> | <previous paragraph> | <text>`
+            let (ints, texts) = rest.split_once(" | ").expect("P case has | separators");
+            let (prev, text) = texts.split_once(" | ").unwrap_or((texts, ""));
+            self.run_t(&format!("{ints} | {text}"), Some(prev), drv)
+        } else if let Some(rest) = case.strip_prefix("B ") {
+            // `B <ints> | <text>` or `B <ints> | <previous paragraph> | <text>` (both through --texts-file)
+            let (ints, texts) = rest.split_once(" | ").unwrap_or((rest, ""));
+            match texts.split_once(" | ") {
+                Some((prev, text)) if !prev.trim().is_empty() && !text.is_empty() && !text.contains('\n') => self.run_b(&format!("{ints} | {text}"), Some(prev), drv),
+                _ => self.run_b(rest, None, drv),
+            }
+        } else if case == "D" {
+            self.run_d(drv)
         } else {
-            panic!("case must start with L or T")
+            panic!("case must start with L, T, P or B")
         }
     }
 
@@ -1458,6 +1883,53 @@ impl Property for C12 {
                 }
                 push(lc.items.clone(), &c);
             }
+        } else if let Some(rest) = case.strip_prefix("P ") {
+            let (ints, texts) = rest.split_once(" | ").unwrap_or((rest, ""));
+            let (prev, text) = texts.split_once(" | ").unwrap_or((texts, ""));
+            for cand in self.shrink(&format!("T {ints} | {text}")) {
+                let (i2, t2) = cand[2..].split_once(" | ").unwrap_or((&cand[2..], ""));
+                out.push(format!("P {i2} | {prev} | {t2}"));
+            }
+            let pw: Vec<&str> = prev.split(' ').collect();
+            if pw.len() > 1 {
+                out.push(format!("P {ints} | {} | {text}", pw[pw.len() / 2..].join(" ")));
+            }
+        } else if let Some(rest) = case.strip_prefix("B ") {
+            if rest.matches(" | ").count() >= 2 {
+                // keep the previous paragraph, shrink the rest
+                let (ints, texts) = rest.split_once(" | ").unwrap();
+                let (prev, text) = texts.split_once(" | ").unwrap();
+                for cand in self.shrink(&format!("B {ints} | {text}")) {
+                    let (i2, t2) = cand[2..].split_once(" | ").unwrap_or((&cand[2..], ""));
+                    if !t2.is_empty() {
+                        out.push(format!("B {i2} | {prev} | {t2}"));
+                    }
+                }
+                let pw: Vec<&str> = prev.split(' ').collect();
+                if pw.len() > 1 {
+                    out.push(format!("B {ints} | {} | {text}", pw[pw.len() / 2..].join(" ")));
+                }
+                return out;
+            }
+            for cand in self.shrink(&format!("T {rest}")) {
+                out.push(format!("B{}", &cand[1..]));
+            }
+            let mut t2 = TCase::decode(rest);
+            for f in 0..5 {
+                let mut changed = true;
+                match f {
+                    0 if t2.c.left != [0; 5] => t2.c.left = [0; 5],
+                    1 if t2.c.right != [0; 5] => t2.c.right = [0; 5],
+                    2 if t2.space_skip != [0; 5] => t2.space_skip = [0; 5],
+                    3 if t2.xspace_skip != [0; 5] => t2.xspace_skip = [0; 5],
+                    4 if t2.c.parfill != [0, 65536, 1, 0, 0] => t2.c.parfill = [0, 65536, 1, 0, 0],
+                    _ => changed = false,
+                }
+                if changed {
+                    out.push(format!("B{}", &t2.encode()[1..]));
+                    t2 = TCase::decode(rest);
+                }
+            }
         } else if let Some(rest) = case.strip_prefix("T ") {
             let tc = TCase::decode(rest);
             let words: Vec<&str> = tc.text.split(' ').collect();
@@ -1489,5 +1961,5 @@ impl Property for C12 {
 }
 
 fn main() {
-    run(C12 { cmr: None });
+    run(C12 { cmr: None, box_bin: None });
 }
